@@ -37,6 +37,27 @@ def run(prop, tier, rule, nontrivial_key, assumptions):
                 R.sample(dict(s, family=d["fam"]))
         for sig, what, case in r["viol"]:
             R.violation(sig, what, case)
+    # family I: matches reported THROUGH THE ADAPTER INDEX (several anchored adapters) - the same obligations apply to them
+    if prop in ("C01", "C02"):
+        from . import c08
+
+        ish = [dict(kind="pairs", first=a, prefix=pfx, tier=tier) for a in ("AAA", "AAC", "ACG", "AACA") for pfx in (True, False)]
+        iout = common.pmap("vf.checks.c08", "run_shard", ish)
+        want = ("coords", "errors") if prop == "C01" else ("unique-missed",)
+        ievals = 0
+        for d, r in zip(ish, iout):
+            ievals += r["evals"]
+            tot["matches" if prop == "C01" else "admissible"] = tot.get("matches" if prop == "C01" else "admissible", 0) + (
+                r["matches"] if prop == "C01" else r["clause2"])
+            for sig, what, case in r["viol"]:
+                if sig in want:
+                    R.violation(f"index:{sig}:{'5p' if d['prefix'] else '3p'}", "through the adapter index: " + what, case)
+        tot["evals"] = tot.get("evals", 0) + ievals
+        fam["I(index)"] = ievals
+    if prop == "C01":
+        for sig, what, case in cli_configured_parameters():
+            R.violation(sig, what, case)
+        fam["cli"] = 1
     R.counters = dict(tot, evals_by_family=fam, shards=len(sh), reference_twin_cases=twin)
     R.assumptions = assumptions
     nontriv = sum(tot.get(k, 0) for k in nontrivial_key)
@@ -45,6 +66,56 @@ def run(prop, tier, rule, nontrivial_key, assumptions):
                                         "(validates the letter symmetry used in A); B: adapters over ACNR x reads over ACGNa x 4 "
                                         "wildcard switch settings; C: 6 adapters of 12-21 nt + one 70 nt x every read within the "
                                         "stated edit depth of every prefix/suffix/whole adapter with junk flanks"))
+
+
+def cli_configured_parameters():
+    """Command-line seam of C01: every match row of the info file must obey the parameters CONFIGURED for the named adapter
+    (global -e / -O, inline ;e= ;o=, file-level parameters only for the adapters of that file)."""
+    import os
+
+    from .. import clih
+
+    V = []
+    wd = clih.fresh_dir("c01cli")
+    fa = os.path.join(wd, "primers.fa")
+    clih.write_text(fa, ">p1\nTTGACCAGGTAC\n>p2\nGGATCCTTAGCA\n")
+    inserts = ["CATCATGTGTGTCATT", "GGGTTTACACACTTGG", "TATATACCGGTTAACC"]
+    A = "AGATCGGAAGAGCACACGTC"
+    reads = []
+    for i in inserts:
+        reads += [i + A, i + A[:4], i + A[:3], i + "AGATCGGTAGTGCTCACGTC", i + "AGTTCGGAAGAGCACACGTC", "TTGACCAGGTAC" + i, "TTGTCCTGGTAC" + i + A,
+                  "GTAC" + i, "AC" + i + "AGAT", i + "AGATCGGAAGAGCCACGTC", i]
+    recs = [(f"r{k}", s_, "I" * len(s_)) for k, s_ in enumerate(reads)]
+    inp = os.path.join(wd, "in.fq")
+    clih.write_text(inp, clih.fastq_text(recs))
+    info = os.path.join(wd, "info.tsv")
+    conf = {  # adapter name -> (sequence, configured rate, configured min overlap)
+        "ill": (A, 0.1, 5), "p1": ("TTGACCAGGTAC", 0.3, 2), "p2": ("GGATCCTTAGCA", 0.3, 2), "inl": ("CCGGTTAACC", 0.2, 4)}
+    for order in (["-g", f"file:{fa};e=0.3;o=2", "-a", f"ill={A}", "-a", "inl=CCGGTTAACC;e=0.2;o=4"],
+                  ["-a", f"ill={A}", "-a", "inl=CCGGTTAACC;e=0.2;o=4", "-g", f"file:{fa};e=0.3;o=2"]):
+        argv = ["-e", "0.1", "-O", "5", "--times", "2"] + order + ["--info-file", info, "-o", os.path.join(wd, "o.fq"), inp]
+        r = clih.run_cli(argv)
+        shown = [a if not a.startswith("/") else os.path.basename(a) for a in argv]
+        if r.exit != 0:
+            V.append(("cli:failed", f"cutadapt failed: {r.exit} {r.exc} {r.errors()[:1]}", dict(argv=shown)))
+            continue
+        with open(info) as fh:
+            for ln in fh:
+                row = ln.rstrip("\n").split("\t")
+                if len(row) < 8 or row[1] == "-1":
+                    continue
+                errors, mid, name = int(row[1]), row[5], row[7]
+                seq, rate, ovl = conf[name]
+                ok = False
+                for a in range(len(seq) + 1):
+                    for b in range(a + 1, len(seq) + 1):
+                        if b - a >= min(ovl, len(seq)) and refalign.distance(seq[a:b], mid, False, False, True) == errors and errors <= rate * (b - a):
+                            ok = True
+                if not ok:
+                    V.append(("cli:configured", f"match of adapter {name} ({errors} errors, matched {mid!r}) is not within the rate {rate} / minimum "
+                              f"overlap {ovl} configured for that adapter", dict(argv=shown, row=row[:8])))
+    clih.rmtree(wd)
+    return V
 
 
 def replay(prop, path):
